@@ -31,6 +31,18 @@ type Program struct {
 	funcDecls map[*types.Func]*ast.FuncDecl
 	declPkg   map[*ast.FuncDecl]*packages.Package
 	parents   map[ast.Node]ast.Node // lazily: parent links for tile38 files
+
+	onlyFromCache map[string]map[*types.Func]bool
+}
+
+// RelPaths lists the tile38 packages by their path relative to the module.
+func (p *Program) RelPaths() []string {
+	var out []string
+	for rel := range p.Pkgs {
+		out = append(out, rel)
+	}
+	sort.Strings(out)
+	return out
 }
 
 type loadOpts struct {
